@@ -44,7 +44,7 @@ def _analyse(repo, pid):
         fails = [o.rule for o in chk.obs if not o.ok and (pid, o.rule, o.construct) not in known]
         if fails:
             return 1, sorted(set(fails))
-        for rule, n in chk.floors.items():
+        for rule, n in chk.effective_floors().items():
             if chk.instances.get(rule, 0) < n:
                 return 2, [f'floor:{rule}']
         return 0, []
@@ -104,7 +104,7 @@ def jobs_for(pids=None):
         if ps2:
             jobs.append(('silent', ps2, module, old, new, None, None, f'silent-{i:03d}-{"+".join(ps2)}'))
     allp = tuple(sorted(pids)) if pids else tuple(f'C{i:02d}' for i in range(1, 21))
-    for tname in ('rename', 'flipcmp', 'swapif', 'all', 'augexpand', 'reorder', 'retlocal', 'demorgan'):
+    for tname in ('rename', 'flipcmp', 'swapif', 'all', 'augexpand', 'reorder', 'retlocal', 'demorgan', 'ternary', 'chainsplit', 'elsejump', 'dropelse', 'extractcond'):
         jobs.append(('silent', allp, '*transform*', tname, None, None, None, f'silent-transform-{tname}'))
     for patch in sorted(glob.glob(os.path.join(VERIF, 'seeded', '*', 'patch.diff'))):
         name = os.path.basename(os.path.dirname(patch))
